@@ -19,6 +19,7 @@
 import FileD.Prelude.Tok
 import FileD.Prelude.JTree
 import FileD.Model.DoIf
+import FileD.Model.DoIfSt
 import FileD.Model.MatchFields
 import FileD.Spec.C14
 namespace FileD.DrvC14
@@ -237,7 +238,9 @@ def pDoIf (args : List String) : Option DoIfCase := do
 def encRes (valid res : Bool) : String := if !valid then "err" else ofBool res
 
 def relaxations : List (String × Relax) :=
-  [("lower", ⟨true, false⟩), ("container", ⟨false, true⟩), ("lower+container", ⟨true, true⟩)]
+  [("lower", ⟨true, false, false⟩), ("container", ⟨false, true, false⟩), ("escapes", ⟨false, false, true⟩),
+   ("lower+container", ⟨true, true, false⟩), ("lower+escapes", ⟨true, false, true⟩),
+   ("container+escapes", ⟨false, true, true⟩), ("lower+container+escapes", ⟨true, true, true⟩)]
 
 def explain (c : DoIfCase) (res : Bool) : String :=
   if spec c.o c.now c.ev c.n == res then "spec" else
@@ -248,7 +251,7 @@ def explain (c : DoIfCase) (res : Bool) : String :=
 def handleDoIf (args impl : List String) : Option (String × String) := do
   let c ← pDoIf args
   let v := valid c.o c.n
-  let m := encRes v (check c.o c.now c.ev c.n)
+  let m := encRes v (checkSt c.o c.now c.ev c.n []).1
   let want := encRes v (spec c.o c.now c.ev c.n)
   let p := match impl with
     | [r] => if r = want then "ok" else if r = "0" ∨ r = "1" ∨ r = "err" then "fail" else "bad-impl"
